@@ -945,6 +945,39 @@ func runFacts(repo, outdir string) error {
 		src := verP.src(dr.Body)
 		resets := strings.Contains(src, "&s.checksum, 0") && strings.Contains(src, "&s.sumStartIdx, 0")
 		lv.raw(fmt.Sprintf("/-- `LogStore.DeleteRange` resets the running checksum and its start index -/\ndef verifierDeleteResets : Bool := %v\n\n", resets))
+		// DeleteRange: the first thing that happens is the underlying DeleteRange, whose error is returned at once
+		iu := strings.Index(src, "s.s.DeleteRange(min, max)")
+		first := false
+		if len(dr.Body.List) > 0 {
+			if ifs, ok := dr.Body.List[0].(*ast.IfStmt); ok && ifs.Init != nil {
+				isrc := verP.src(ifs.Init)
+				bsrc := verP.src(ifs.Body)
+				first = strings.Contains(isrc, "err := s.s.DeleteRange(min, max)") && strings.Contains(verP.src(ifs.Cond), "err != nil") && strings.Contains(bsrc, "return err")
+			}
+		}
+		lv.raw(fmt.Sprintf("/-- `LogStore.DeleteRange` calls the underlying DeleteRange first and returns its error before touching its own state -/\ndef verifierDeleteReturnsUnderlyingError : Bool := %v\n\n", first && iu >= 0 && strings.Count(src, "s.s.DeleteRange(") == 1))
+	}
+	{ // StoreLogs: the running sum is published only after the underlying StoreLogs returned nil
+		sl, err := verP.fn("LogStore", "StoreLogs")
+		if err != nil {
+			return err
+		}
+		src := verP.src(sl.Body)
+		iu := strings.Index(src, "s.s.StoreLogs(logs)")
+		ic := strings.Index(src, "atomic.StoreUint64(&s.checksum")
+		ix := strings.Index(src, "atomic.StoreUint64(&s.sumStartIdx")
+		it := strings.Index(src, "s.triggerVerify(")
+		ok := iu >= 0 && ic > iu && ix > iu && it > iu
+		if ok {
+			lo := ic
+			if ix < lo {
+				lo = ix
+			}
+			between := src[iu:lo]
+			ie := strings.Index(between, "err != nil")
+			ok = ie >= 0 && strings.Contains(between[ie:], "return err") && strings.Count(src, "atomic.StoreUint64(&s.checksum") == 1 && strings.Count(src, "atomic.StoreUint64(&s.sumStartIdx") == 1
+		}
+		lv.raw(fmt.Sprintf("/-- `LogStore.StoreLogs` publishes the running checksum and its start index, and hands reports to the verifier, only after the underlying StoreLogs returned nil (its error is returned in between) -/\ndef verifierPublishesAfterStore : Bool := %v\n\n", ok))
 	}
 	if err := lv.finish(outdir); err != nil {
 		return err
